@@ -31,7 +31,7 @@ PROPS = {
     "C18": dict(tests=[T("TestVerifC18", 6000, 100000), T("TestVerifC18Loading", 300, 4000, shrinktime="0s"),
                        # the maphash.Comparable hasher (Go >= 1.24) is exercised with the newer toolchain in the thorough tier
                        dict(T("TestVerifC18", 6000, 50000, th_shards=8), go="go1.26.8", tiers=("thorough",), label="go1.26.8")]),
-    "C16": dict(tests=[T("TestVerifC16", 300, 4000, shrinktime="0s", gomaxprocs=[16, 4, 2, 16])]),
+    "C16": dict(tests=[T("TestVerifC16", 300, 4000, shrinktime="0s", gomaxprocs=[16, 4, 2, 16]), T("TestVerifC16Seq", 3000, 40000)]),
     "C17": dict(tests=[T("TestVerifC17", 20000, 150000)]),
     "C19": dict(tests=[T("TestVerifC19", 250, 3000, race=True, shrinktime="0s", gomaxprocs=[16, 4, 8, 16], q_timeout=400)]),
     "C20": dict(tests=[T("TestVerifC20", 400, 6000, shrinktime="0s", gomaxprocs=[16, 4, 2, 16])]),
